@@ -146,12 +146,17 @@ func (prom *Prometheus) RangeQuery(ctx context.Context, expr string, params Rang
 			},
 		}
 
+		// Different range queries can share identical slices, make sure each slice is only requested once at a time.
+		sliceKey := fmt.Sprintf("%s/%s/%d/%d/%s", APIPathQueryRange, expr, s.Start.Unix(), s.End.Unix(), step)
+
 		wg.Add(1)
 		go func() {
 			var result queryResult
 			query.result = make(chan queryResult)
+			prom.locker.lock(sliceKey)
 			prom.queries <- query
 			result = <-query.result
+			prom.locker.unlock(sliceKey)
 			results <- result
 
 			if result.err != nil {
